@@ -1251,6 +1251,7 @@ def plan(tier, seed):
     # L2: the same kind of history as API text to a live session in the lab (the real Peer._main consumes the RIB)
     m = 8 if tier == 'quick' else 24
     out += [{'shard': 5000 + i, 'level2': True, 'part': i, 'cases': 4 if tier == 'quick' else 40} for i in range(m)]
+    out += [{'shard': 6000 + i, 'nonip': True, 'part': i, 'cases': 150 if tier == 'quick' else 3000} for i in range(2)]
     return out
 
 
@@ -1328,6 +1329,89 @@ def l2_case(r: random.Random, idx: int) -> dict:
     bound = 40.0 + (0.15 * (nfill + 8) * resends if cfg.get('rate_limit') else 0.0)
     steps += [['wait_quiet', 2.0, bound], ['snapshot', 'end'], ['mark', 'end']]
     return {'config': cfg, 'steps': steps, 'vtimeout': 400.0 + bound, 'wall': 120.0, 'quantum': 0.0005, 'rx_limit': 70000, 'ops': ops, 'intended': intended, 'nfill': nfill, 'group': group}
+
+
+def run_nonip(desc):
+    """families whose next hop lives in the route only, not in a NEXT_HOP attribute (l2vpn vpls): announce / re-announce with
+    another next hop / withdraw, drained at random points; what the peer was last told == what the Adj-RIB-Out reports"""
+    import struct
+
+    from exabgp.reactor.api import API
+    from vlib import corpus
+
+    res = Result()
+    exa.quiet()
+    r = random.Random(desc['seed'] * 65537 + desc['part'])
+    nb = list(exa.load_config(exa.neighbor_text(families=[(25, 65)], extra='    adj-rib-out true;')).neighbors.values())[0]
+    neg = corpus.mirror_session(nb)
+    api = API(None)
+    sites = [(5, 10702), (6, 10800)]
+    hops = ['192.168.201.1', '192.168.201.2', '192.168.201.3']
+
+    def route(site, nh):
+        ep, base = site
+        rs = list(api.api_vpls(f'announce vpls endpoint {ep} base {base} offset 1 size 8 rd 192.168.201.1:123 next-hop {nh}'))
+        return rs[0] if rs else None
+
+    for case_i in range(desc['cases']):
+        rib = nb.rib.outgoing
+        rib.reset() if hasattr(rib, 'reset') else None
+        rib.clear_cache() if hasattr(rib, 'clear_cache') else None
+        peer = {}
+        ops = []
+        for _ in range(r.randrange(2, 9)):
+            site = r.choice(sites)
+            kind = r.choice(['announce', 'announce', 'announce', 'withdraw'])
+            nh = r.choice(hops)
+            x = route(site, nh)
+            if x is None:
+                res.inconclusive.append('vpls route text refused')
+                return res
+            x = nb.resolve_self(x)
+            if kind == 'announce':
+                rib.add_to_rib(x)
+            else:
+                rib.del_from_rib(x)
+            ops.append((kind, site[0], nh))
+            if r.random() < 0.6:
+                ops.append(('drain',))
+                for upd in rib.updates(nb.group_updates):
+                    for raw in upd.messages(neg, True):
+                        wd, ab, nl = rw.split_update(raw[19:])
+                        for flags, code, value in rw.dec_attr_tlvs(ab):
+                            if code == 14 and value[:3] == struct.pack('!HB', 25, 65):
+                                nhl = value[3]
+                                hop = '.'.join(str(b) for b in value[4 : 4 + nhl][-4:])
+                                body = value[4 + nhl + 1 :]
+                                for i in range(0, len(body), 19):
+                                    peer[bytes(body[i : i + 19])] = hop
+                            elif code == 15 and value[:3] == struct.pack('!HB', 25, 65):
+                                body = value[3:]
+                                for i in range(0, len(body), 19):
+                                    peer.pop(bytes(body[i : i + 19]), None)
+        for upd in rib.updates(nb.group_updates):
+            for raw in upd.messages(neg, True):
+                wd, ab, nl = rw.split_update(raw[19:])
+                for flags, code, value in rw.dec_attr_tlvs(ab):
+                    if code == 14 and value[:3] == struct.pack('!HB', 25, 65):
+                        nhl = value[3]
+                        hop = '.'.join(str(b) for b in value[4 : 4 + nhl][-4:])
+                        body = value[4 + nhl + 1 :]
+                        for i in range(0, len(body), 19):
+                            peer[bytes(body[i : i + 19])] = hop
+                    elif code == 15 and value[:3] == struct.pack('!HB', 25, 65):
+                        body = value[3:]
+                        for i in range(0, len(body), 19):
+                            peer.pop(bytes(body[i : i + 19]), None)
+        reported = {bytes(x.nlri.pack_nlri(neg)): str(x.nexthop) for x in rib.cached_routes()}
+        wit = {'ops': ops, 'peer': {k.hex(): v for k, v in peer.items()}, 'reported': {k.hex(): v for k, v in reported.items()}}
+        if peer != reported:
+            k = sorted(set(peer) | set(reported), key=lambda b: (peer.get(b) == reported.get(b), b))[0]
+            kind = 'missing-at-peer' if k not in peer else 'not-reported' if k not in reported else 'nexthop-differs'
+            res.violation(f'C04/nonip-peer-vs-reported:{kind}:vpls', f'vpls route {k.hex()[20:32]}: the peer holds next hop {peer.get(k)}, ExaBGP reports {reported.get(k)}', wit, 'nonip:vpls')
+        else:
+            res.ok('nonip:vpls', ('vpls', tuple(o[0] for o in ops)))
+    return res
 
 
 def run_level2(desc):
@@ -1414,6 +1498,8 @@ def run_level2(desc):
 
 
 def run_shard(desc):
+    if desc.get('nonip'):
+        return run_nonip(desc)
     if desc.get('level2'):
         return run_level2(desc)
     res = Result()
@@ -1542,6 +1628,7 @@ REQUIRED_CLASSES = {
         'L2-op:withdraw',
         'L2-op:flush',
         'L2-op:clear',
+        'nonip:vpls',
     ],
 }
 REQUIRED_CLASSES['thorough'] = REQUIRED_CLASSES['quick'] + ['enum:len5']
